@@ -541,8 +541,16 @@ pub fn admissible(prog: &Program, config: &CircuitConfig, with_pis: bool) -> boo
     if (with_pis || uses("hash") || uses("hash_or_noop") || uses("merkle")) && !poseidon_ok {
         return false;
     }
-    // BaseSumGate<2> with 64 limbs / <4> with 32 limbs need 65 / 33 wires
-    if config.num_wires < 66 && (uses("split") || uses("range") || uses("low_bits") || uses("exp") || uses("random_access") || uses("lookup") || uses("merkle")) {
+    // Preconditions the library states as debug assertions (release builds mis-wire silently):
+    // `le_sum` of n bits needs n + 1 routed wires ("Not enough routed wires"), and the
+    // exponentiation gate takes at most num_power_bits = min(routed - 2, (wires - 2) / 2) exponent
+    // bits (`wire_power_bit`).  The vocabulary uses 63-bit sums and 64-bit exponents.
+    if config.num_routed_wires < 66
+        && (uses("split") || uses("low_bits") || uses("exp") || uses("exp_u64") || uses("exp_pow2"))
+    {
+        return false;
+    }
+    if config.num_wires < 66 && (uses("range") || uses("random_access") || uses("lookup") || uses("merkle") || uses("split_base4")) {
         return false;
     }
     true
